@@ -22,7 +22,7 @@ sim::Json generate(const std::string& tier, uint64_t seed, uint64_t index) {
   gen::Model m = gen::generate(rng, go);
   for (auto& v : m.vars) if (v.lb == v.ub) v.ub = v.lb + 1;   // no fixed variables: tags must stay visible
   bool ampl = rng.chance(0.8);
-  sim::Json sc = model_scenario(m, ampl);
+  sim::Json sc = model_scenario(m, ampl, rng.chance(0.4));
   int K = (int)m.objs.size();
   std::vector<std::string> opts;
   bool given = rng.chance(0.8);
